@@ -2456,7 +2456,13 @@ func (c *streamableClientConn) Write(ctx context.Context, msg jsonrpc.Message) e
 
 	default:
 		resp.Body.Close()
-		return fmt.Errorf("%s: unsupported content type %q", requestSummary, contentType)
+		err := fmt.Errorf("%s: unsupported content type %q", requestSummary, contentType)
+		if requestMethod == methodDiscover {
+			// As above: whatever a legacy server makes of server/discover must
+			// not prevent the legacy initialize fallback on this connection.
+			err = fmt.Errorf("%w: %w", err, jsonrpc2.ErrRejected)
+		}
+		return err
 	}
 	return nil
 }
